@@ -198,6 +198,20 @@ pub fn check_named(prop: &str, case: &Case, st: &mut Stats) -> Result<(), Violat
             let want = reference(t, d, *x);
             let diff = (f64::from(*g) - want).abs();
             if !(diff < tol) {
+                let bad = |q: f32| -> bool {
+                    match lib_apply(t, d, &[q]) {
+                        Ok(o) => !((f64::from(o[0]) - reference(t, d, q)).abs() < tol),
+                        Err(_) => false,
+                    }
+                };
+                let small = minimize_f32(*x, 0.0, 1.0, bad);
+                if small != *x {
+                    let o = lib_apply(t, d, &[small]).map(|o| o[0]).unwrap_or(f32::NAN);
+                    return Err(fail(
+                        format!("{} {:?} at x={:e} (shrunk from {:e}): got {:e}, defining formula gives {:e} (tolerance {:e})", tc_name(t), d, small, x, o, reference(t, d, small), tol),
+                        &[small],
+                    ));
+                }
                 return Err(fail(
                     format!("{} {:?} at x={:e}: got {:e}, defining formula gives {:e} (|diff| {:e} >= {:e})", tc_name(t), d, x, g, want, diff, tol),
                     &[*x],
@@ -286,11 +300,11 @@ pub fn sweep(ctx: &Ctx, st: &mut Stats, prop: &'static str, stride: u64, chk: fn
 }
 
 pub fn run(ctx: &Ctx, st: &mut Stats) -> Vec<Violation> {
-    let mut v = run_proptest(ctx, st, "random", ctx.pick(6000, 60000), strategy, check);
+    let mut v = run_proptest(ctx, st, "random", ctx.cases(12_000, 120_000), strategy, check);
     if !v.is_empty() {
         return v;
     }
-    let stride = ctx.pick(509, 1);
+    let stride = if ctx.light { 1021 } else { ctx.pick(257, 1) };
     v.extend(sweep(ctx, st, "C03", stride, check_named, &[Dir::ToLinear, Dir::ToGamma]));
     if stride == 1 && v.is_empty() {
         st.exhaustive_parts.push("ALL: every f32 in [0,1] (1,065,353,217 values) x 14 curves x 2 directions".into());
